@@ -2,7 +2,8 @@ from _common import COMMON_NOTE
 
 META = {
  'title': 'Frames last 69888/70908 T with a 32-T INT pulse; no T-state is ever lost',
- 'lean_modules': ['ZxVerif.Props.C05'],
+ 'lean_modules': ['ZxVerif.Props.C05', 'ZxVerif.Props.C04X'],
+ 'extract': ['Machine', 'Contended'],
  'modelled_code': ['rustzx-core/src/zx/controller.rs (wait_internal clock part, new_frame, int_active, frames_count)',
                    'rustzx-core/src/zx/machine/mod.rs + specs.rs (clocks_frame, interrupt_length)',
                    'rustzx-core/src/emulator/mod.rs (emulate_frames frame counting, exercised by the system-level runs)'],
